@@ -265,7 +265,8 @@ def main():
 
     t0 = time.time()
     nsh = args.shards or int(prop.TIERS[args.tier].get("shards", min(16, os.cpu_count() or 4)))
-    outdir = os.path.join(OUT, pid, args.tier)
+    # (a directory of its own per run: two runs of the same check at the same time must not remove each other's shard files)
+    outdir = os.path.join(OUT, pid, args.tier, f"run{os.getpid()}")
     os.makedirs(outdir, exist_ok=True)
     procs = []
     for s in range(nsh):
@@ -404,6 +405,9 @@ def main():
           f"unlisted_violations={n_unlisted} known={sum(cov['known_findings_seen'].values())} timeouts={ntime} wall={wall:.1f}s")
     keys = sorted(agg["counters"])
     print("  monitors: " + ", ".join(f"{k}={agg['counters'][k]}" for k in keys)[:1500])
+    if not dead:
+        import shutil
+        shutil.rmtree(outdir, ignore_errors=True)     # (shard logs are kept only when a shard died)
     if n_unlisted:
         return 1
     if inconclusive:
